@@ -179,3 +179,15 @@ CONFIG["C12"] = {
     "assumptions": COMMON_ASSUMPTIONS + ["the value-list finaliser (SimpleFinalizer), documented as unchecked, is not driven with wrong types"],
     "counter_floors": {"quick": {"candidate.TooWide": 3000, "candidate.TooNarrow": 3000, "candidate.SameWidthOtherShape": 3000, "construct+finalize_unpruned.ok": 3000, "witness-map+finalize_unpruned.ok": 3000}, "thorough": {}},
 }
+
+CONFIG["C03"] = {
+    "budget_s": {"quick": 120, "thorough": 1800},
+    "floor": {"quick": 30000, "thorough": 2000000},
+    "rule": ("a case is a (program bytes, witness bytes) pair: (1) the library's own redemption-time encoding of a type-directed random 1->1 Elements program (all 471 jets may appear as leaves; witnesses of "
+             "every type shape; assertions; disconnect; fail; words; sharing), (2) the same with 1-2 byte-level mutations, (3) random strings. Rust: RedeemNode::decode::<Elements>; C: decodeMallocDag, "
+             "mallocTypeInference, fillWitnessData, computeAnnotatedMerkleRoot, verifyNoDuplicateIdentityHashes, analyseBounds (unbounded), 1->1 check, called through simplicity-sys. Oracle: both accept or both "
+             "reject, except C's FailCode when the program contains a fail node, and C-only Malloc/ExecMemory/ExecBudget/size refusals (inconclusive); when both accept, CMR, AMR, IHR and the cost bound are bit-identical. "
+             "Non-trivial: every compared pair; distinct: distinct byte pairs."),
+    "assumptions": COMMON_ASSUMPTIONS + ["libsimplicity as vendored in simplicity-sys/depend is the reference", "pruned programs are compared with C in C08"],
+    "counter_floors": {"quick": {"both-accept": 5000, "both-reject": 20000, "fail-node-exception": 500}, "thorough": {"both-accept": 300000}},
+}
